@@ -16,11 +16,11 @@ from .model import LIB_DIRS, AnalysisError
 
 
 # frozen minimum detection ratio of the AST-computed mutants per property (measured on the pinned tree minus a margin)
-AUTO_FLOOR = {  # 0.6 x the ratio measured with VERIF_SEED=1 (sampling noise of 400 mutants is about +-0.03); re-measured when shared rules
-    # enlarge the pool of analysed functions (C03, C15, C19 after round 3: the pool tripled, the ratio is diluted by functions that
-    # only one clause looks at)
-    'C01': 0.30, 'C02': 0.45, 'C03': 0.08, 'C04': 0.45, 'C05': 0.48, 'C06': 0.37, 'C07': 0.10, 'C08': 0.22, 'C09': 0.26, 'C10': 0.43,
-    'C11': 0.28, 'C12': 0.45, 'C13': 0.03, 'C14': 0.13, 'C15': 0.25, 'C16': 0.25, 'C17': 0.20, 'C18': 0.15, 'C19': 0.06, 'C20': 0.18,
+AUTO_FLOOR = {  # 0.6 x the detection ratio measured with VERIF_SEED=1 on /repo 5b8da99 with the final rule set (sampling noise of 400
+    # mutants is about +-0.03).  The ratios of C03, C07, C15, C17, C19, C20 are low because shared / inventory rules put hundreds of
+    # functions into the pool of which they look at one clause only (e.g. C20.R12 scans every function for `self.params.x = ..`).
+    'C01': 0.30, 'C02': 0.44, 'C03': 0.09, 'C04': 0.45, 'C05': 0.52, 'C06': 0.29, 'C07': 0.13, 'C08': 0.20, 'C09': 0.25, 'C10': 0.52,
+    'C11': 0.36, 'C12': 0.43, 'C13': 0.03, 'C14': 0.14, 'C15': 0.25, 'C16': 0.24, 'C17': 0.15, 'C18': 0.17, 'C19': 0.06, 'C20': 0.07,
 }
 # properties about aliasing are probed with the value-semantics operators only (sign / index mutants cannot create an alias)
 AUTO_OPS = {'C12': {'uncopy', 'aliasparam'}, 'C13': {'uncopy', 'aliasparam', 'delete', 'swap'}}
